@@ -142,13 +142,30 @@ def explore_job(harness, job, bound=None, cap=None, want_samples=2, seed=0):
     res = JobResult(job)
     rnd = random.Random((seed, repr(job)).__repr__())
     stack = [((), None)]
-    sample_every = None
+    shard = None
+    if isinstance(job, tuple) and job and isinstance(job[-1], tuple) and job[-1][:1] == ("shard",):
+        shard = (job[-1][1], job[-1][2])   # (k, n): this job explores every n-th first-level subtree
     while stack:
         prefix, expect = stack.pop()
         ch = Chooser(prefix, expect)
         out = harness(job, ch)
         if len(ch.choices) < len(prefix):
             raise Nondeterminism("replay: execution ended after %d points, prefix has %d" % (len(ch.choices), len(prefix)))
+        if shard and not prefix:
+            # root execution: counted by shard 0 only; children dealt round-robin
+            pts = ch.points
+            kids = []
+            for i in range(len(pts) - 1, -1, -1):
+                if bound is not None and pts[i][2] > bound:
+                    continue
+                for alt in range(pts[i][1] - 1, 0, -1):
+                    kids.append((tuple(ch.choices[:i]) + (alt,), pts[:i + 1]))
+            stack.extend(k for j, k in enumerate(kids) if j % shard[1] == shard[0])
+            if shard[0] != 0:
+                continue
+            shard_root = True
+        else:
+            shard_root = False
         res.executions += 1
         nd = ch.ndev()
         res.maxdev = max(res.maxdev, nd)
@@ -176,6 +193,8 @@ def explore_job(harness, job, bound=None, cap=None, want_samples=2, seed=0):
             if stack:
                 res.capped = True
             break
+        if shard_root:
+            continue
         # children: deviate at any point after the prefix
         pts = ch.points
         base = sum(pts[i][2] for i in range(len(prefix)) if prefix[i])
@@ -212,6 +231,11 @@ def _short(x, limit=600):
         return json.loads(s)
     except Exception:
         return s
+
+
+def sharded(jobs, n):
+    """split every job into n shard-jobs (first-level subtrees dealt round-robin)"""
+    return [tuple(j) + (("shard", k, n),) for j in jobs for k in range(n)]
 
 
 def standard(harness, bound_of_tier, cap_of_tier=None):
